@@ -10,6 +10,9 @@ pub(crate) mod engine;
 #[path = "/verif/harness/conductor/blobs_mc.rs"]
 mod blobs_mc;
 
+#[path = "/verif/harness/conductor/decode_mc.rs"]
+mod decode_mc;
+
 use std::collections::BTreeSet;
 
 use astria_core::crypto::SigningKey;
